@@ -22,6 +22,9 @@ if rc != 0:
 rc1, out1 = sh(run)
 os.remove(os.path.join(wt, demo_dir, demo_name))
 pk = './' + demo_dir + '/...' if not demo_dir.endswith('machine') else './pkg/machine/'
+if demo_dir.startswith('pkg/history'):
+    # bbolt's TestBboltRead fails on the unchanged tree (not in the stable baseline)
+    pk = './pkg/history/ ./pkg/history/test/ ./pkg/history/badger/ ./pkg/history/gorm/'
 rc2, out2 = sh('go test -count=1 %s 2>&1 | tail -15' % pk)
 suite_ok = 'FAIL' not in out2 or all(('TestBboltRead' in l or 'bbolt' in l or 'FAIL\t' in l and 'bbolt' in l) for l in out2.splitlines() if 'FAIL' in l)
 sh('git checkout -q -- . && git clean -fdq -e _out')
